@@ -32,7 +32,10 @@ def mode_arg(r, cfg):
         m = re.search(r"InSampled\s*=\s*(TRUE|FALSE)", f.read())
     if not m:
         raise vlib.ToolError("no InSampled constant in %s" % cfg)
-    return ["true" if m.group(1) == "TRUE" else "false"]
+    fs = list(vlib.iter_printed(r.out_path, "FORMS"))
+    if not fs:
+        raise vlib.ToolError("TLC did not print the context forms for %s" % cfg)
+    return ["true" if m.group(1) == "TRUE" else "false", fs[0]]
 
 
 def run(ctx):
@@ -41,6 +44,7 @@ def run(ctx):
             {"cfg": "Traceparent_quick.cfg", "workers": 4, "actions": ACTIONS + TASKS + LAZY},
             {"cfg": "Traceparent_quick2.cfg", "workers": 4, "actions": ACTIONS + ["Header"]},
             {"cfg": "Traceparent_quick3.cfg", "workers": 4, "actions": ACTIONS},
+            {"cfg": "Traceparent_quick4.cfg", "workers": 4, "actions": ACTIONS + ["Header"]},
         ]
     else:
         full = ACTIONS + TASKS + LAZY + ["Header"]
@@ -68,10 +72,11 @@ def run(ctx):
     span_common.run_configs(ctx, "MCTraceparent", "c18_tp", configs, ACTIONS, "C18",
                             harness_args=mode_arg)
     ctx.assumptions += [
+        "context forms (value, &C, Option<C>, Box<C>, Arc<C>, Box<dyn ErasedCtxt + Send + Sync>, the ambient runtime of setup_with_sampler(..).init_slot): every program runs through one form, the program number rotates through them; not every program through every form",
         "no call-site `when`, no other runtime filter than TraceparentFilter [and in_sampled_trace_filter(true)] (the statement's setting)",
         "the random source yields no zero and no repeat; ids are compared up to a bijection",
         "what the statement does not say is not compared: Traceparent::current() outside any trace and its ids inside an unsampled trace, events outside any trace, ids of events in unsampled traces",
-        "an invalid header (no trace id or no span id) is no trace: the next span is a root; headers with a trace id but no span id are not generated (the code reuses that trace id for the new trace, which the bijection would flag although the statement is silent); invalid headers carry the sampled flag when the sampled-trace filter is installed",
+        "an invalid header (no ids, span id only, trace id only; sampled or unsampled flag) is ignored: the next span is a root and the sampler decides; which trace id that root gets is not said (the code keeps a sampled trace-id-only header's), so its name is bound softly; with the sampled-trace filter installed only invalid headers with the sampled flag are generated (in_sampled_trace_filter reads the flag of an invalid active traceparent too and would drop a root the sampler accepted - reported, not asserted)",
         "hand-off frames are Frame::current(rt.ctxt()) (the book's way), span frames and pushed headers; the specification models the repaired open_push/open_disabled (fix F23: capture the active traceparent)",
         "span guards are moved into their frame; a panic is caught below everything the thread has entered (one catch level per thread), the level / error of the record emitted while unwinding is C05's",
         "bounds: see coverage.tlc_runs[*].constants",
